@@ -21,7 +21,7 @@ RULE = ("G-MAP base family: every pipeline of 1..2 functions over root sets {x[i
         "takes each array fully indexed / with one ':' / all ':' / whole, output axes in every order with 0..1 internal axis per pipeline at every position, 1 or 2 "
         "outputs, optional second array for the consumer (sibling output, a root again, new root zipped / outer / scalar), no-MapSpec producers consumed through an "
         "index; a distinct size per axis name; list and ndarray inputs; dict storage for all, folder-backed file_array / mixes / shared_memory_dict for the "
-        "1-function pipelines and the consumers of `a` only; a second map on the same Pipeline object with other sizes; plus the family with TWO internal axes over "
+        "1-function pipelines and the consumers of `a` only; a second map on the same Pipeline object with other sizes; after every map the caller-owned inputs dict, its values and the internal_shapes dict are compared with a snapshot; plus the family with TWO internal axes over "
         "x[i]. Thorough adds, as separate complete families: every storage assignment for the whole base family, two internal axes over every root set, rank-3 and "
         "2-D-zip roots, three further size assignments, and 3-function chains. non-trivial = distinct pipeline shape with a mapped axis and at least one of zip / "
         "outer product / ':' / internal axis / tuple output / full reduction. The 1-function pipelines are enumerated with one, two and three outputs")
@@ -112,10 +112,16 @@ def _one_map(p, spec, form, storage, with_folder, pred, folder=None):  # noqa: C
         try:
             with contextlib.redirect_stdout(io.StringIO()), warnings.catch_warnings():
                 warnings.simplefilter("ignore")
-                r = p.map(dict(inputs), run_folder=folder, internal_shapes=ishapes, parallel=False,
+                given, given_ish = dict(inputs), (dict(ishapes) if ishapes else ishapes)
+                snap = ({k: terms.T(v) for k, v in given.items()}, repr(sorted(given_ish.items())) if given_ish else None)
+                r = p.map(given, run_folder=folder, internal_shapes=given_ish, parallel=False,
                           storage=storage if isinstance(storage, str) else {(tuple(k.split(",")) if "," in k else k): v for k, v in storage.items()})
         except Exception as e:  # noqa: BLE001
             return [(findings.exc_sig(e, phase="map", **pred), f"map refused/failed on {[gen_map.spec_str(f) for f in spec['funcs']]} ({storage}): {type(e).__name__}: {str(e)[:120]}")]
+        # the caller's own objects (the inputs dict, its values, the internal_shapes dict) are as they were
+        now = ({k: terms.T(v) for k, v in given.items()}, repr(sorted(given_ish.items())) if given_ish else None)
+        if now != snap:
+            out.append(({"kind": "arguments-changed", **pred}, f"map changed its caller's arguments: inputs/internal_shapes {now} were {snap} for {[gen_map.spec_str(f) for f in spec['funcs']]}"))
         log = list(terms.LOG)
         for fn in spec["funcs"]:
             for o in fn["outs"]:
